@@ -45,6 +45,8 @@ fn later_op() -> impl Strategy<Value = Op> {
         1 => Just(Op::StageAll),
         3 => Just(Op::CommitAll),
         1 => Just(Op::CommitStaged),
+        2 => any::<u16>().prop_map(Op::Restore),
+        1 => any::<u16>().prop_map(Op::RmCached),
     ]
 }
 
@@ -62,6 +64,7 @@ pub fn strategy() -> impl Strategy<Value = Case> {
         3 => Just(Step::Repo(Op::HotEmpty)),
         3 => (any::<u16>(), any::<u16>()).prop_map(|(a, b)| Step::Repo(Op::HotCopy(a, b))),
         3 => Just(Step::Repo(Op::HotDelete)),
+        2 => Just(Step::Repo(Op::Restore(0))),
         2 => Just(Step::Repo(Op::CommitAll)),
         3 => Just(Step::UpdatePending),
         1 => later_op().prop_map(Step::Repo),
@@ -73,6 +76,8 @@ pub fn strategy() -> impl Strategy<Value = Case> {
             1 => Op::HotEdit,
             2 => Op::HotTailEdit,
             3 => Op::HotEditOldMtime,
+            // put a deleted / modified tracked file back (the tree may be clean again, at the same HEAD)
+            5 => Op::Restore(0),
             _ => Op::HotEmpty,
         };
         let mut v = vec![];
